@@ -31,7 +31,17 @@ def run(ctx):
     import dataclasses as _dc
     import os, sys
     sys.path.insert(0, os.path.dirname(os.path.abspath(__file__)))
-    from c07 import widen_arrays
+    from c07 import widen_arrays, widen_struct_arrays
+    # arrays of 127 / 128 / 300 structures (the element count crosses the one-byte varint)
+    nw = 0
+    for i, a, obj in list(insts):
+        if nw >= (40 if thorough else 8):
+            break
+        for nlen in (127, 128, 300):
+            w = widen_struct_arrays(obj, nlen)
+            if w is not obj:
+                insts.append((i, values.abstract(w), w))
+                nw += 1
     done = set()
     for i, a, obj in list(insts):
         c = cl.cls(i)
